@@ -26,6 +26,12 @@ package stat
 //@   pure
 //@   assumed
 //@   ensures r >= 0.0
+// the node's peak concurrency is the peak of the node's OWN window (its view), not of everything the array retains
+//@ func (n *BaseStatNode) MaxConcurrency() r
+//@   props C08
+//@   requires n != nil && n.metric != nil && viewOK(n.metric) && bucketsOK(n.metric.real.data, base.MetricEventPass)
+//@   ensures[read-through-the-nodes-own-window] r == n.metric.MaxConcurrency()
+//@   modifies nothing
 
 // ---- C01: the statistic slot records every outcome exactly once, on the entered resource and, for inbound
 // traffic, on the inbound total; nothing else changes
@@ -35,21 +41,21 @@ package stat
 //@ spec func counted(ctx, p) = (ctx.StatNode != nil && p == dynptr(ctx.StatNode)) || (isInbound(ctx) && p == ref(inboundNode))
 
 //@ func (s *Slot) OnEntryPassed(ctx)
-//@   props C01, C02, C04
+//@   props C01, C02, C04, C07
 //@   requires slotCtxOK(ctx)
 //@   ensures[pass-tokens] forall p Int :: forall e Int :: tot(gAdded, p, e) == tot(old(gAdded), p, e) + (counted(ctx, p) && e == base.MetricEventPass ? ctx.Input.BatchCount : 0)
 //@   ensures[in-flight] forall p Int :: sel(gConc, p) == sel(old(gConc), p) + (counted(ctx, p) ? 1 : 0)
 //@   modifies gAdded, gConc
 
 //@ func (s *Slot) OnEntryBlocked(ctx, blockError)
-//@   props C01, C02, C04
+//@   props C01, C02, C04, C07
 //@   requires slotCtxOK(ctx) && blockError != nil
 //@   ensures[block-tokens] forall p Int :: forall e Int :: tot(gAdded, p, e) == tot(old(gAdded), p, e) + (counted(ctx, p) && e == base.MetricEventBlock ? ctx.Input.BatchCount : 0)
 //@   ensures[no-capacity] gConc == old(gConc)
 //@   modifies gAdded
 
 //@ func (s *Slot) OnCompleted(ctx)
-//@   props C01, C04
+//@   props C01, C04, C07
 //@   requires slotCtxOK(ctx) && clock_ms >= ctx.startTime
 //@   let b = ctx.Input.BatchCount
 //@   ensures[rt-stored] ctx.rt == clock_ms - old(ctx.startTime)
